@@ -5,7 +5,8 @@ import json
 import random
 
 SDL = """
-type Query { a: Int  b(x: Int, l: [Int]): String  o: Obj  i: I  u: U  os: [Obj]  r(req: Int!): Int  d(nd: Int! = 1, nl: [Int!]): Int  is: [I]  f(in: In, ins: [In!]): Int  j: J  u2: U2 }
+type Query { a: Int  b(x: Int, l: [Int]): String  o: Obj  i: I  u: U  os: [Obj]  r(req: Int!): Int  d(nd: Int! = 1, nl: [Int!]): Int  is: [I]  f(in: In, ins: [In!]): Int  j: J  u2: U2  k(j: Any, js: [Any]): Int }
+scalar Any
 type Mutation { m(x: Int): Int  o: Obj }
 type Subscription { s1: Int  s2(x: Int): Int  o: Obj }
 input In { x: Int = 3  y: Int!  n: In  l: [Int!] }
@@ -18,7 +19,7 @@ interface J { s: String }
 enum E { A B }
 """
 FIELDS = {
-    "Query": {"a": ("Int", {}), "b": ("String", {"x": "Int", "l": "[Int]"}), "o": ("Obj", {}), "i": ("I", {}), "u": ("U", {}), "os": ("Obj", {}), "r": ("Int", {"req": "Int!"}), "d": ("Int", {"nd": "Int! = 1", "nl": "[Int!]"}), "is": ("I", {}), "f": ("Int", {"in": "In", "ins": "[In!]"}), "j": ("J", {}), "u2": ("U2", {})},
+    "Query": {"a": ("Int", {}), "b": ("String", {"x": "Int", "l": "[Int]"}), "o": ("Obj", {}), "i": ("I", {}), "u": ("U", {}), "os": ("Obj", {}), "r": ("Int", {"req": "Int!"}), "d": ("Int", {"nd": "Int! = 1", "nl": "[Int!]"}), "is": ("I", {}), "f": ("Int", {"in": "In", "ins": "[In!]"}), "j": ("J", {}), "u2": ("U2", {})},      # (Query.k, the custom scalar field, is only used by its own injection: leaf literals)
     "Mutation": {"m": ("Int", {"x": "Int"}), "o": ("Obj", {})},
     "Subscription": {"s1": ("Int", {}), "s2": ("Int", {"x": "Int"}), "o": ("Obj", {})},
     "Obj": {"a": ("Int", {}), "o": ("Obj", {}), "s": ("String", {}), "b": ("String", {"x": "Int"}), "c": ("Int", {"p": "Int = 1", "q": "Int = 5"})},
@@ -264,7 +265,17 @@ INJECTIONS = ["unknown-field", "leaf-with-selection", "composite-without-selecti
               "abstract-no-overlap", "abstract-partial-overlap", "abstract-in-abstract-no-overlap",
               "type-definition-in-document", "type-extension-in-document",
               "skipped-spread-then-spread", "skipped-variable-spread-then-spread", "cyclic-subscription-fragments", "self-spreading-subscription-fragment",
-              "two-subscriptions-shared-fragment", "two-subscriptions-shared-fragment-second-invalid"]
+              "two-subscriptions-shared-fragment", "two-subscriptions-shared-fragment-second-invalid",
+              # selections inside inline fragments WITHOUT a type condition (with and without a directive) are checked against the
+              # enclosing type like any other
+              "typeless-inline-valid", "typeless-inline-unknown-field", "typeless-inline-directive-leaf-with-selection", "typeless-inline-composite-without-selection",
+              "typeless-inline-nested-unknown-argument",
+              # the same key twice with an object-valued field written between the two
+              "duplicate-input-key-behind-object", "duplicate-input-key-behind-list",
+              # operations and fragments have separate name spaces
+              "fragment-named-like-operation", "fragment-named-like-operation-unused-variable",
+              # literals of a custom scalar: whatever its coercion accepts (here: any leaf literal, bare names included)
+              "custom-scalar-leaf-literals"]
 
 
 def normalise(doc):
@@ -457,6 +468,35 @@ def _inject(doc, label, rng):
         if "var" in label:
             op["vars"].append(vardef("iv"))
         op["sel"].append(field("f", "iof", [{"name": "in", "value": {"k": "obj", "fs": [{"key": k, "val": v} for k, v in fs]}}]))
+    elif label.startswith("typeless-inline-"):
+        incl = [directive("include", boolv(True))]
+        sel = {"typeless-inline-valid": [field("o", "tiv", [], [inline("", [field("a")]), inline("", [field("s")], incl)]), inline("", [field("a", "tia")], incl)],
+               "typeless-inline-unknown-field": [field("o", "tiu", [], [inline("", [field("nope")])])],
+               "typeless-inline-directive-leaf-with-selection": [inline("", [field("a", "til", [], [field("__typename")])], incl)],
+               "typeless-inline-composite-without-selection": [field("o", "tic", [], [inline("", [inline("", [field("o", "deep")])])])],
+               "typeless-inline-nested-unknown-argument": [field("o", "tin", [], [inline("", [field("b", "", [{"name": "zzz", "value": {"k": "int", "v": "1"}}])], incl)])]}[label]
+        op["sel"] += sel
+    elif label in ("duplicate-input-key-behind-object", "duplicate-input-key-behind-list"):
+        one = {"k": "int", "v": "1"}
+        mid = ("n", {"k": "obj", "fs": [{"key": "y", "val": one}]}) if label.endswith("object") else ("l", {"k": "list", "vs": [one]})
+        fs = [("y", one), mid, ("y", {"k": "int", "v": "2"})]
+        op["sel"].append(field("f", "dkb", [{"name": "in", "value": {"k": "obj", "fs": [{"key": k, "val": v} for k, v in fs]}}]))
+    elif label.startswith("fragment-named-like-operation"):
+        if not op["name"]:
+            op["name"] = "Main"
+        op["vars"].append(vardef("fv"))
+        other = "Foo" if op["name"] != "Foo" else "Foo2"
+        # a fragment called like the SECOND operation; only the first operation spreads it; it reaches a fragment using $fv
+        doc["defs"].append({"k": "frag", "name": other, "op": "", "vars": [], "on": "Obj", "sel": [spread("FnloInner")]})
+        doc["defs"].append({"k": "frag", "name": "FnloInner", "op": "", "vars": [], "on": "Obj", "sel": [field("b", "fnlo", [{"name": "x", "value": {"k": "var", "n": "fv"}}])]})
+        op["sel"].append(field("o", "fnl", [], [spread(other)]))
+        second_vars = [vardef("unusedhere")] if label.endswith("unused-variable") else []
+        doc["defs"].append({"k": "op", "name": other, "op": "query", "vars": second_vars, "on": "", "sel": [field("a")]})
+    elif label == "custom-scalar-leaf-literals":
+        op["vars"].append(vardef("anyv", named("Any"), {"k": "enum", "v": "INFO"}))
+        op["sel"] += [field("k", "cs1", [{"name": "j", "value": {"k": "enum", "v": "INFO"}}]), field("k", "cs2", [{"name": "j", "value": {"k": "int", "v": "1"}}]),
+                      field("k", "cs3", [{"name": "js", "value": {"k": "list", "vs": [{"k": "enum", "v": "WARN"}, {"k": "bool", "v": "true"}, {"k": "null"}]}}]),
+                      field("k", "cs4", [{"name": "j", "value": {"k": "var", "n": "anyv"}}])]
     elif label == "input-var-default-object":
         op["vars"].append(vardef("ivd", named("In"), {"k": "obj", "fs": [{"key": "y", "val": {"k": "int", "v": "1"}}]}))
         op["sel"].append(field("f", "ivdf", [{"name": "in", "value": {"k": "var", "n": "ivd"}}]))
@@ -631,6 +671,8 @@ def rval(v):
         return v["v"]
     if k == "null":
         return "null"
+    if k == "enum":
+        return v["v"]
     if k == "list":
         return "[%s]" % ", ".join(rval(x) for x in v["vs"])
     if k == "obj":
